@@ -68,6 +68,7 @@ Inductive bout :=
 | BOk (t : btree)
 | BOkSlice (s : option slice)
 | BErr (p : pos) (exp : list nat)
+| BErrNoAction
 | BPanic (site : nat)
 | BOutOfFuel.
 
@@ -157,7 +158,7 @@ Definition bstep (islayout : bool) (lex : ctxt -> option (tokres * ctxt)) (c : b
   | [] => Some (BDone (BPanic P_EMPTY_STACK) (b_cx c))
   | (s, _) :: _ =>
       match cell T s (tk_kind (b_tok c)) with
-      | [] => Some (BDone (BPanic P_EMPTY_CELL) (b_cx c))
+      | [] => Some (BDone BErrNoAction (b_cx c))
       | Shift s' :: _ =>
           let cx := b_cx c in
           let newp := position_after (sub inp (tk_val (b_tok c))) (cx_pos cx) in
